@@ -571,6 +571,38 @@ func Inject(r *rand.Rand, p *Policy, defect string) bool {
 			c.Op = weirdOps[r.Intn(len(weirdOps))]
 		}
 		nc.Conds = conds
+		if r.Intn(3) == 0 {
+			// the defect sits in the tail of a list whose valid head is also the list of an earlier entry of the
+			// group (conds[:k] for one syscall, conds for another: both slices start at the same element)
+			pos := 0
+			for i := range conds {
+				if &conds[i] == c {
+					pos = i
+				}
+			}
+			if pos == 0 {
+				conds = append([]Cond{{Arg: uint32(r.Intn(6)), Op: Ops[r.Intn(len(Ops))], Val: Operand(r)}}, conds...)
+				nc.Conds = conds
+				pos = 1
+			}
+			table := TableNames(p.Arch)
+			used := map[string]bool{}
+			for _, n := range g.Names {
+				used[n] = true
+			}
+			for _, e := range g.WithConds {
+				used[e.Name] = true
+			}
+			for try := 0; try < 20; try++ {
+				n := table[r.Intn(len(table))]
+				if !used[n] {
+					head := NameConds{Name: n, Conds: append([]Cond{}, conds[:1+r.Intn(pos)]...)}
+					g.WithConds = append([]NameConds{head}, g.WithConds...)
+					p.Shared = true
+					break
+				}
+			}
+		}
 		return true
 	case "dup-condname-ok":
 		// not a defect: the same name with conditions twice is merged (OR)
